@@ -293,4 +293,29 @@ def run(chk, tier):
                        f"replace={replace}", loc=C.fn_loc(h))
     chk.expect(n_true >= 4, "register-monotone", "register", "some-upgrades-allowed", ">=4 upgrading pairs", n_true)
     # the replace flag gates the insert
+    # every descriptor enters the registry through TransferSyntax::erased(): type erasure keeps each component of the codec -- each arm
+    # rebuilds its own variant, binds every component (no `_` / `None` sub-pattern that would swallow one) and uses each binding
+    chk.rule("erased-keeps-codec", "TransferSyntax::erased: `match self.codec` maps every Codec variant to the same variant; every component of the pattern is bound and "
+             "used in the rebuilt value (a stub reader does not drop a writer, and the reverse); uid, name, byte_order, explicit_vr are copied")
+    he = fxw.method("dicom_encoding", "dicom_encoding::transfer_syntax::TransferSyntax", "erased")
+    CODEC = "dicom_encoding::transfer_syntax::Codec"
+    mc = H.matches_over(he["body"], lambda t: t.startswith(CODEC))
+    if len(mc) != 1:
+        raise facts.MissingAnchor("TransferSyntax::erased: match over Codec")
+    n_er = 0
+    for p, g, b, ln in H.match_arms(mc[0]):
+        sp = H.show_pat(p)
+        var = sp.split("(")[0].split("{")[0].split("::")[-1]
+        binds = H.pat_bindings(p)
+        built = [(H.callee(x) or H.path_of(x) or "").split("::")[-1] for x in [H.peel(b)]]
+        lazy_ok = all(sum(1 for y in H.walk(b) if H.kind(y) == "path" and y[2] == v) >= 1 for v in binds)
+        arity = {"Dataset": 1, "EncapsulatedPixelData": 2, "None": 0}.get(var)
+        n_er += 1
+        chk.expect(arity is not None and len(binds) == arity and "_" not in re.findall(r"[\(,]\s*(_)\s*[\),]", sp) and ("(" not in sp or "None" not in sp.split("(", 1)[1]) and built == [var] and lazy_ok and g is None,
+                   "erased-keeps-codec", "erased", var, f"{var}(<{arity} bound components>) => {var}(<each component boxed>)", {"pattern": sp, "builds": built, "bindings": binds}, loc=f"{he['loc']['f']}:{ln}")
+    chk.floor("erased-keeps-codec", "Codec arms", n_er, 3)
+    st = [y for y in H.walk(he["body"]) if H.kind(y) == "struct" and y[2].endswith("TransferSyntax")]
+    inits = {f[0]: H.show(f[1], 3) for f in st[0][4]} if len(st) == 1 else {}
+    want_i = {"uid": "self.uid", "name": "self.name", "byte_order": "self.byte_order", "explicit_vr": "self.explicit_vr", "codec": "codec"}
+    chk.expect(inits == want_i, "erased-keeps-codec", "erased", "descriptor-fields", want_i, inits, loc=C.fn_loc(he))
     chk.undecided.append("inventory-submitted transfer syntaxes of downstream crates; HashMap behaviour; that each adapter type really decodes its format")
